@@ -2,7 +2,9 @@ package main
 
 import (
 	"fmt"
+	"go/constant"
 	"go/token"
+	"go/types"
 
 	"golang.org/x/tools/go/ssa"
 )
@@ -501,4 +503,158 @@ func wideUse(v ssa.Value, seen map[ssa.Value]bool) ssa.Instruction {
 		}
 	}
 	return nil
+}
+
+// checkFormat0Len: a format 0 subtable says in bytes 2,3 how long it is. The
+// encoder builds the subtable from a header literal and the 256-entry array;
+// the rule adds up what is appended and compares the sum with the declared
+// length, so that a missing part (or a wrong constant) is noticed.
+func checkFormat0Len(w *World, r *Report) {
+	r.Rule("declaredlen: in (*cmap.Format0).Encode the length of the returned slice — the sum of the lengths of everything appended to the empty buffer (constant header bytes, the whole Data array) — equals the length the header declares in bytes 2,3 (both are constants)")
+	fn := w.Func("(*cmap.Format0).Encode")
+	if fn == nil {
+		r.Fatal("(*cmap.Format0).Encode does not resolve")
+		return
+	}
+	key := r.MkKey("declaredlen", fnName(fn), "format 0 subtable")
+	var ret ssa.Value
+	for _, b := range fn.Blocks {
+		if rt, ok := b.Instrs[len(b.Instrs)-1].(*ssa.Return); ok && len(rt.Results) == 1 {
+			ret = rt.Results[0]
+		}
+	}
+	if ret == nil {
+		r.Fail("declaredlen", key, w.Pos(fn.Pos()), "no single-result return found", nil)
+		return
+	}
+	// array literal behind a variadic argument: stores of constants at constant indices
+	declared := int64(-1)
+	var lenOfSlice func(v ssa.Value) (int64, bool)
+	lenOfSlice = func(v ssa.Value) (int64, bool) {
+		switch x := v.(type) {
+		case *ssa.MakeSlice:
+			if c, ok := x.Len.(*ssa.Const); ok {
+				return c.Int64(), true
+			}
+		case *ssa.Slice:
+			if x.Low != nil || x.High != nil {
+				lo, hi := int64(0), int64(-1)
+				if x.Low != nil {
+					c, ok := x.Low.(*ssa.Const)
+					if !ok {
+						return 0, false
+					}
+					lo = c.Int64()
+				}
+				if x.High != nil {
+					c, ok := x.High.(*ssa.Const)
+					if !ok {
+						return 0, false
+					}
+					hi = c.Int64()
+				}
+				if hi >= 0 {
+					return hi - lo, true
+				}
+			}
+			if p, ok := x.X.Type().Underlying().(*types.Pointer); ok {
+				if a, ok := p.Elem().Underlying().(*types.Array); ok {
+					lo := int64(0)
+					if x.Low != nil {
+						lo = x.Low.(*ssa.Const).Int64()
+					}
+					// remember the header literal
+					if al, ok := x.X.(*ssa.Alloc); ok && al.Referrers() != nil {
+						vals := map[int64]int64{}
+						for _, ref := range *al.Referrers() {
+							ia, ok := ref.(*ssa.IndexAddr)
+							if !ok || ia.Referrers() == nil {
+								continue
+							}
+							ic, ok := ia.Index.(*ssa.Const)
+							if !ok {
+								continue
+							}
+							for _, r2 := range *ia.Referrers() {
+								if st, ok := r2.(*ssa.Store); ok {
+									if v, ok := evalConstInt(st.Val, 0); ok {
+										vals[ic.Int64()] = v
+									}
+								}
+							}
+						}
+						if hi, ok1 := vals[2]; ok1 {
+							if lo2, ok2 := vals[3]; ok2 && declared < 0 {
+								declared = hi<<8 | lo2
+							}
+						}
+					}
+					return a.Len() - lo, true
+				}
+			}
+		case *ssa.Call:
+			if bi, ok := x.Call.Value.(*ssa.Builtin); ok && bi.Name() == "append" && len(x.Call.Args) == 2 {
+				a, ok1 := lenOfSlice(x.Call.Args[0])
+				b, ok2 := lenOfSlice(x.Call.Args[1])
+				return a + b, ok1 && ok2
+			}
+		}
+		return 0, false
+	}
+	total, ok := lenOfSlice(ret)
+	switch {
+	case !ok:
+		r.Fail("declaredlen", key, w.Pos(fn.Pos()), "the length of the returned slice is not a sum of constant-length appends", nil)
+	case declared < 0:
+		r.Fail("declaredlen", key, w.Pos(fn.Pos()), "no header literal with constant bytes 2,3 found among the appended parts", nil)
+	case total != declared:
+		r.Fail("declaredlen", key, w.Pos(fn.Pos()), fmt.Sprintf("the subtable declares a length of %d bytes in its header but %d bytes are produced: a reader that trusts the length reads past the end or rejects the table", declared, total), nil)
+	default:
+		r.OK("declaredlen", key, w.Pos(fn.Pos()), fmt.Sprintf("%d bytes declared and produced", total))
+	}
+}
+
+// evalConstInt folds conversions, shifts and masks of integer constants.
+func evalConstInt(v ssa.Value, depth int) (int64, bool) {
+	if depth > 8 {
+		return 0, false
+	}
+	switch x := v.(type) {
+	case *ssa.Const:
+		if x.Value != nil && x.Value.Kind() == constant.Int {
+			return x.Int64(), true
+		}
+	case *ssa.Convert:
+		a, ok := evalConstInt(x.X, depth+1)
+		if !ok {
+			return 0, false
+		}
+		if n := typeBits(x.Type()); n > 0 && n < 64 {
+			a &= (1 << uint(n)) - 1
+		}
+		return a, true
+	case *ssa.BinOp:
+		a, ok1 := evalConstInt(x.X, depth+1)
+		b, ok2 := evalConstInt(x.Y, depth+1)
+		if !ok1 || !ok2 {
+			return 0, false
+		}
+		switch x.Op {
+		case token.SHR:
+			return a >> uint(b), true
+		case token.SHL:
+			return a << uint(b), true
+		case token.AND:
+			return a & b, true
+		case token.OR:
+			return a | b, true
+		case token.ADD:
+			return a + b, true
+		case token.SUB:
+			return a - b, true
+		case token.MUL:
+			return a * b, true
+		}
+	}
+	return 0, false
 }
